@@ -32,6 +32,13 @@ type c31Scenario struct {
 	KeyMode  string     `json:"key_mode"` // explicit | legacy | auto
 	Key      string     `json:"key"`
 	ClientAuth bool     `json:"client_auth,omitempty"`
+	// AuthMode (when ClientAuth is false): 0 none, 1 RequestClientCert, 3 VerifyClientCertIfGiven; NoClientCert: the
+	// client has no certificate to give (legal for these optional modes)
+	AuthMode     int  `json:"auth_mode,omitempty"`
+	NoClientCert bool `json:"no_client_cert,omitempty"`
+	// Suite384: the TLS 1.3 client starts with TLS_AES_256_GCM_SHA384 as its only 1.3 suite (the session's KDF hash is
+	// then SHA-384); the event client_suites later puts a SHA-256 suite first
+	Suite384 bool `json:"suite384,omitempty"`
 	// PerClient: connections are accepted by a listener Config with unrelated explicit ticket keys whose
 	// GetConfigForClient returns server A's Config; the keys that count are A's (explicit/legacy key modes)
 	PerClient bool      `json:"per_client,omitempty"`
@@ -50,6 +57,11 @@ func genC31(seed uint64, tier string) any {
 		sc.Key = "p256"
 	}
 	sc.ClientAuth = r.Chance(1, 5)
+	if !sc.ClientAuth && r.Chance(1, 4) {
+		sc.AuthMode = []int{1, 3}[r.Intn(2)]
+		sc.NoClientCert = r.Bool()
+	}
+	sc.Suite384 = sc.Version == vTLS13 && r.Chance(1, 4)
 	sc.PerClient = sc.KeyMode != "auto" && r.Chance(1, 4)
 	sc.Net = NetCfg{SegMode: r.Intn(2), MaxSeg: []int{0, 100, 1460}[r.Intn(3)], LatMinUs: 100, LatMaxUs: 2000}
 	n := r.Range(3, 8)
@@ -73,6 +85,10 @@ func genC31(seed uint64, tier string) any {
 		}
 		switch r.Pick([]int{0, 2, 2, 3, 6, 2, 1, 1, 2, 1, pskw}) {
 		case 10:
+			if sc.Suite384 && r.Chance(1, 3) {
+				sc.Events = append(sc.Events, c31Event{Kind: "client_suites"})
+				break
+			}
 			sc.Events = append(sc.Events, c31Event{Kind: "psk_probe", Off: r.Intn(1 << 16), Bit: r.Intn(8)})
 		case 9:
 			if sc.KeyMode != "auto" {
@@ -181,6 +197,8 @@ func execC31(t *testing.T, scAny any, keepLog bool) *Outcome {
 			c.Time = clock
 			if sc.ClientAuth {
 				c.ClientAuth = tls.RequireAndVerifyClientCert
+			} else if sc.AuthMode != 0 {
+				c.ClientAuth = tls.ClientAuthType(sc.AuthMode)
 			}
 			return c
 		}
@@ -227,9 +245,12 @@ func execC31(t *testing.T, scAny any, keepLog bool) *Outcome {
 		ccfg := clientConfig(EndCfg{MaxVersion: sc.Version, Cache: true}, s, run.R.Derive("cli-rand"))
 		ccfg.Time = clock
 		ccfg.ClientSessionCache = cache
-		if sc.ClientAuth {
+		if sc.ClientAuth || sc.AuthMode != 0 && !sc.NoClientCert {
 			c := tlsCert(pki().Client["p256"], true, clientKeyOfKind["p256"])
 			ccfg.Certificates = []tls.Certificate{c}
+		}
+		if sc.Suite384 {
+			ccfg.CipherSuites = []uint16{0x1302, 0xc02f, 0xc02b, 0xc030, 0xc02c, 0xc013, 0xc009, 0xc014, 0xc00a, 0x002f, 0x0035}
 		}
 		var issued []issuedTicket
 		// Model of the documented automatic key management ("rotated every day and dropped after seven
@@ -254,6 +275,8 @@ func execC31(t *testing.T, scAny any, keepLog bool) *Outcome {
 			}
 			return nil
 		}
+		suitesChanged := false // the client re-ordered its suites: a session from before may legitimately no longer resume
+		var suitesChangedAt time.Time
 		tampered := false // the cached ticket was altered / replaced since the last Put
 		connIdx := 0
 		var prev *connOutcome
@@ -292,6 +315,13 @@ func execC31(t *testing.T, scAny any, keepLog bool) *Outcome {
 				o.count("fault.clock_advance", 1)
 				if ev.Hours >= 168 {
 					o.count("fault.clock_advance_beyond_lifetime", 1)
+				}
+			case "client_suites":
+				// the client changes its preference: a SHA-256 suite first, the session's SHA-384 suite still offered
+				if sc.Suite384 {
+					ccfg.CipherSuites = []uint16{0x1301, 0x1302, 0xc02f, 0xc02b, 0xc030, 0xc02c, 0xc013, 0xc009, 0xc014, 0xc00a, 0x002f, 0x0035}
+					suitesChangedAt, suitesChanged = clock(), true
+					o.count("fault.client_suite_preference_changed", 1)
 				}
 			case "client_max":
 				ccfg.MaxVersion = ev.Max
@@ -410,7 +440,7 @@ func execC31(t *testing.T, scAny any, keepLog bool) *Outcome {
 				if d, ok := sh.ext(41); ok && len(d) == 2 {
 					sel = int(d[0])<<8 | int(d[1])
 				}
-				mustResume := it.ByA && it.KeyEpoch == epoch && clock().Sub(it.At) < time.Hour && it.Vers == vTLS13 &&
+				mustResume := !(suitesChanged && !it.At.After(suitesChangedAt)) && it.ByA && it.KeyEpoch == epoch && clock().Sub(it.At) < time.Hour && it.Vers == vTLS13 &&
 					ccfg.MaxVersion == sc.Version && srvA.MaxVersion == sc.Version
 				switch {
 				case sel == 0:
@@ -527,7 +557,7 @@ func execC31(t *testing.T, scAny any, keepLog bool) *Outcome {
 					o.count("probe.full_handshake", 1)
 					// progress: an unaltered ticket issued under the current first key, fresh, same offer, must resume
 					it := find(offered)
-					if it != nil && !tampered && it.ByA && it.KeyEpoch == epoch && clock().Sub(it.At) < time.Hour &&
+					if it != nil && !tampered && !(suitesChanged && !it.At.After(suitesChangedAt)) && it.ByA && it.KeyEpoch == epoch && clock().Sub(it.At) < time.Hour &&
 						it.Vers == cs.Version && ccfg.MaxVersion == sc.Version && srvA.MaxVersion == sc.Version {
 						sig := "authentic fresh ticket under the current key did not resume"
 						if prevPresentedExpired && cs.Version != vTLS13 {
